@@ -216,8 +216,19 @@ func init() {
 					continue // env.Runtime.Package.Put: the unqualified path
 				}
 				n++
+				// one Put may serve the qualified and the unqualified path (`target, key := current, k; if
+				// qualified { …target = looked-up… }; target.Put(key, v)`): what matters is that it cannot be
+				// reached once the namespace was found empty
+				afterEmpty := false
+				for _, e := range empty {
+					if fc.reachableFromAvoidingBlocks(e.B.Succs[e.K], lc.Loc.B, nil) {
+						afterEmpty = true
+					}
+				}
 				if len(nonEmpty) > 0 && !fc.reachableAvoiding(lc.Loc.B, nonEmpty) {
 					obs = append(obs, mkOb(c, "PKG.keyword-refused", u, "qualified binding", lc.Call, Proved, "reachable only on an edge entailing namespace != \"\"", true))
+				} else if len(empty) > 0 && !afterEmpty {
+					obs = append(obs, mkOb(c, "PKG.keyword-refused", u, "qualified binding", lc.Call, Proved, "not reachable from the edge on which the namespace is empty (that edge returns)", true))
 				} else {
 					obs = append(obs, mkOb(c, "PKG.keyword-refused", u, "qualified binding", lc.Call, Violated, "the qualified binding is reachable with an empty namespace", true))
 				}
